@@ -52,7 +52,7 @@ def expected_parts(url):
 
 def site_hosts():
     return {'hosts': {'a.test': {}, 'b.test': {}, 'a.test:8080': {}, 'bücher.test': {},
-                      'xn--bcher-kva.test': {}}}
+                      'xn--bcher-kva.test': {}, 'proxy.test:3128': {}}}
 
 
 def run_case(case, chooser=None):
@@ -84,6 +84,8 @@ def run_case(case, chooser=None):
     argv = [case['start'], '--no-robots', '--delete-after', '--waitretry', '0', '--tries', '1']
     if not case.get('cookies'):
         argv.append('--no-cookies')
+    if case.get('proxy'):
+        argv += ['--http-proxy', 'proxy.test:3128']
     site = site_hosts()
     out = AppRun(site, argv, chooser or Chooser(), strategy=strategy, early=False).run()
     return out
@@ -193,13 +195,26 @@ def judge(case, out):
             names.append(ln.split(':', 1)[0].lower())
         # --- semantics --------------------------------------------------------------
         scheme, host, port, target, hwp = expected_parts(cur)
-        if m.group(2) != target:
+        if case.get('proxy'):
+            # absolute-form: the hop's normalised URL (with or without its user-info: RFC 7230
+            # 2.7.1 forbids it, wpull sends it; either reading of "the absolute URL" passes)
+            bare = '%s://%s%s' % (scheme, hwp, target)
+            if m.group(2) not in (cur, bare):
+                return '%s: proxy request target %r, expected %r' % (where, m.group(2)[:100],
+                                                                    bare)
+        elif m.group(2) != target:
             return '%s: request target %r, expected %r' % (where, m.group(2)[:100], target)
         if names.count('host') != 1:
             return '%s: %d Host fields' % (where, names.count('host'))
         if q['headers'].get('host') != hwp:
             return '%s: Host is %r, expected %r' % (where, q['headers'].get('host'), hwp)
-        if (q['hostname'], q['port']) != (ip_name(host), port):
+        if case.get('proxy'):
+            if (q['hostname'], q['port']) != ('proxy.test', 3128):
+                return '%s: not sent to the proxy but to %s:%s' % (where, q['hostname'],
+                                                                   q['port'])
+            if 'proxy-authorization' in q['headers']:
+                return '%s: Proxy-Authorization without proxy credentials' % where
+        elif (q['hostname'], q['port']) != (ip_name(host), port):
             return '%s: sent to %s:%s' % (where, q['hostname'], q['port'])
         ui = URLInfo.parse(cur)
         if 'authorization' in q['headers']:
@@ -279,13 +294,23 @@ def cases(tier):
                 if n <= 2:
                     # every hop answers 401 first (authentication state)
                     out.append(dict(start=base, chain=chain, cookies=False, challenge=True))
+    # through an HTTP proxy (absolute-form request target); https would need a CONNECT
+    # tunnel + TLS, which the fake transport does not provide
+    px = []
+    for c in out:
+        if c['start'] == base and not c['cookies'] and len(c['chain']) <= 2 and \
+                not any('https' in loc for _, loc in c['chain']) and not c.get('challenge'):
+            px.append(dict(c, proxy=True))
+    for u in START_URLS:
+        if not u.lower().startswith('https'):
+            px.append(dict(start=u, chain=[], cookies=False, proxy=True))
     lib = []
     for c in out:
         if c['start'] == base and not c['cookies'] and len(c['chain']) <= 2:
             lib.append(dict(c, lib=True))
     for u in START_URLS:
         lib.append(dict(start=u, chain=[], cookies=False, lib=True))
-    out += lib
+    out += lib + px
     for loc in LOCATIONS:
         for code in CODES:
             out.append(dict(start='http://a.test/s', chain=[(code, loc)], cookies=True))
@@ -466,7 +491,8 @@ def run_job(job):
         v = judge(case, out)
         shape = (len(case['chain']), tuple(c for c, _ in case['chain']),
                  tuple(re.sub(r'/h\d+$', '', l) for _, l in case['chain']), case['cookies'],
-                 case['start'], bool(case.get('challenge')), bool(case.get('lib')))
+                 case['start'], bool(case.get('challenge')), bool(case.get('lib')),
+                 bool(case.get('proxy')))
         res['distinct'].add(h64(shape))
         key = 'reqs=%d %s' % (len(out['requests']), 'ok' if not v else 'bad')
         res['outcomes'][key] = res['outcomes'].get(key, 0) + 1
